@@ -160,6 +160,156 @@ Example C04_file_decodes_example :
   bf_run ([], 0) ex_ops rs = Some (decode_file ex_g im' (first_field h') 515, 515).
 Proof. exact ex_run_decodes. Qed.
 
+(* ================================================================================================================
+   (5) THE COMPOSITION THROUGH THE DIRECTORY ENTRY (Model/VolSession.v, Proofs/VolSessionProofs.v, VolSessionFormat.v):
+   one file session on a whole FAT12/16 device image - root_dir().create_file(name) (Model/VolDir.v) ; any calls on the
+   new handle (Model/VolFile.v; each under its own clock value: File::write re-stamps the modification time, File::read
+   the access date when the mount option asks for it) ; File::flush / drop: the handle's DirEntryEditor serialises the
+   32-byte short entry - with the first cluster and the size the handle has reached - at its slot in the root region, iff it
+   is dirty.  Afterwards the independent decoder Spec/Abs.abs shows the file node WITH its content. *)
+From FatVerif Require Import Model.Time Model.VolDir Model.FlushM Model.VolSession Model.Format Spec.FormatSpec
+  Model.FormatImage Spec.FormatImageSpec Proofs.FormatProofs Proofs.FormatImageProofs Proofs.VolDirProofs Proofs.VolDirFormat
+  Proofs.VolSessionProofs Proofs.VolSessionFormat Proofs.VolSessionExamples.
+From FatVerif Require Spec.Wf Proofs.TimeProofs Model.ShortName.
+
+(* create_file keeps the device a byte device (needed to run the file layer on the image it leaves) *)
+Theorem C04_session_create_bytes_ok : forall upper oem im name now r im',
+  TimeProofs.datetime_valid now = true -> FatProofs.bytes_ok im ->
+  vol_create_empty_file_root upper oem im name now = (r, im') -> FatProofs.bytes_ok im'.
+Proof. exact vol_create_bytes_ok. Qed.
+
+(* the handle create_file builds from the record it has just serialised = the handle built from the device bytes *)
+Theorem C04_session_open_is_created : forall e, sfn_fields_ok e -> N.land (se_attrs e) ATTR_LFN <> ATTR_LFN ->
+  slot_decode (sfn_encode e) = SFile e.
+Proof. exact sess_open_created. Qed.
+
+(* File::flush on the image is the event shape of Model/FlushM.v (C14): the entry write iff dirty, then the device flush *)
+Theorem C04_session_flush_shape : forall g st,
+  s_im (vol_flush_entry g st) = apply_events (s_im st) (flush_events g st) /\
+  flush_events g st =
+    (if sess_dirty (s_h st) (s_en st)
+     then [DWrite (root_slot_off g (en_slot (s_en st))) (sfn_encode (sess_entry g (s_h st) (s_en st)))] else []) ++ [DFlush] /\
+  sess_dirty (s_h (vol_flush_entry g st)) (s_en (vol_flush_entry g st)) = false.
+Proof.
+  intros g st. split; [reflexivity|]. split; [reflexivity|].
+  unfold vol_flush_entry, sess_dirty, clear_dirty. cbn [s_h s_en h_entry en_tdirty]. destruct (h_entry (s_h st)); reflexivity.
+Qed.
+
+(* (a) create_file(name) ; ANY calls on the new handle ; flush, on ANY FAT12/16 image whose root decodes without issue and
+   whose tree has no broken chain ([node_intact]).  The decoder finds the old root nodes exactly as before and, at the
+   position of the new entry, the FILE WITH ITS CONTENT = the byte array of the byte-array machine (Spec/ByteFile.v) after
+   the same calls; size field = its length; chain = the decoder's own walk from the entry's first cluster (no cluster iff
+   empty): ceil(size / cluster size) distinct clusters, each free before and allocated now; no decode issue; labels,
+   geometry, status byte as before.  FRAME: no byte differs outside the root region, the FAT copies and clusters that were
+   free before; every cluster that was not free keeps its FAT value and its data (so every other file and directory of the
+   volume decodes as before - that is the "old nodes exactly as before" clause); a cluster that was free and is not in
+   the chain is free. *)
+Theorem C04_session_flush_decodes : forall upper oem acc im fi name now ops range im1,
+  let g := parse_geom im in
+  fixed_root_geom g -> FatProofs.bytes_ok im ->
+  fi_inv fstore (VolFileProofs.val_ft (ft_of g)) (store_of g im) fi (g_clusters g) ->
+  v_root_issues (abs im) = [] -> forallb node_intact (v_root (abs im)) = true ->
+  TimeProofs.datetime_valid now = true -> Forall op_ok (map fst ops) -> clocks_ok ops ->
+  vol_create_empty_file_root upper oem im name now = (Ok (Some range), im1) ->
+  exists st rs content pos e l ns1 ns2,
+    vol_session upper oem acc im fi name now ops = Some (st, rs) /\
+    bf_run ([], 0) (map fst ops) rs = Some (content, pos) /\
+    v_root (abs im) = ns1 ++ ns2 /\
+    v_root (abs (s_im st)) = ns1 ++ NFile e (if e_cluster e =? 0 then None else Some l) content :: ns2 /\
+    e_lfn e = stored_lfn name /\ e_lfn_ok e = true /\ e_attr e = 0 /\ ShortName.sfn_legal_b (e_sfn e) = true /\
+    ~ In (e_sfn e) (map e_sfn (map node_entry (v_root (abs im)))) /\
+    e_first_slot e = fst range /\ e_sfn_slot e + 1 = snd range /\
+    e_size e = len_N content /\ (e_cluster e = 0 <-> content = []) /\
+    (e_cluster e <> 0 -> chain_from g (s_im st) (e_cluster e) (Abs.chain_fuel g) = Some l /\ nth_error l 0 = Some (e_cluster e)) /\
+    N.of_nat (length l) = cdiv (g_cluster_size g) (len_N content) /\ NoDup l /\
+    (forall c, In c l -> 2 <= c < g_clusters g + 2 /\ fat_val g im c = FFree /\ fat_val g (s_im st) c <> FFree) /\
+    v_root_issues (abs (s_im st)) = [] /\ v_labels (abs (s_im st)) = v_labels (abs im) /\
+    v_geom (abs (s_im st)) = v_geom (abs im) /\ v_root_chain (abs (s_im st)) = v_root_chain (abs im) /\
+    v_status (abs (s_im st)) = v_status (abs im) /\
+    (forall a, (a < g_root_off g \/ g_root_off g + root_bytes g <= a) -> ~ in_store_area g a ->
+       (forall c, 2 <= c < g_clusters g + 2 -> fat_val g im c = FFree -> ~ in_cluster g c a) ->
+       img_get (s_im st) a = img_get im a) /\
+    (forall c, 2 <= c < g_clusters g + 2 -> fat_val g im c <> FFree ->
+       fat_val g (s_im st) c = fat_val g im c /\ cluster_bytes g (s_im st) c = cluster_bytes g im c) /\
+    (forall c, 2 <= c < g_clusters g + 2 -> fat_val g im c = FFree -> ~ In c l -> fat_val g (s_im st) c = FFree) /\
+    (forall i, (i < root_slot_count g)%nat -> (N.of_nat i < fst range \/ snd range <= N.of_nat i) ->
+       nth i (root_region_slots g (s_im st)) [] = nth i (root_region_slots g im) []).
+Proof. exact session_flush_decodes. Qed.
+
+(* the two decode premises of C04_session_flush_decodes hold on every WELL-FORMED volume (Spec/Wf.wf_issues = [], the C03
+   invariant): no root decode issue, no broken chain anywhere in the tree *)
+Theorem C04_session_wf_premises : forall fold im, g_bits (parse_geom im) <> 32 -> Wf.wf_issues fold im = [] ->
+  v_root_issues (abs im) = [] /\ forallb node_intact (v_root (abs im)) = true.
+Proof. exact wf_session_premises. Qed.
+
+(* the decode frame behind the "old nodes" clause, on its own: two images that agree on the FAT value and the data of every
+   cluster that is NOT FREE in the first decode every tree without broken chains alike, to any depth *)
+Theorem C04_session_decode_frame : forall g im im',
+  (forall x, in_range g x = true -> fat_val g im x <> FFree ->
+     fat_val g im' x = fat_val g im x /\ cluster_bytes g im' x = cluster_bytes g im x) ->
+  forall d es, forallb node_intact (decode_entries g im d es) = true -> decode_entries g im' d es = decode_entries g im d es.
+Proof. exact decode_entries_nonfree. Qed.
+
+(* (b) END TO END from ANY device content: format_volume (FAT12/16 request, root filling its sectors) ; create_file(name) ;
+   the bytes written in ANY split into write calls, with any seeks, truncates and reads in between ; flush.  The decoder
+   finds exactly ONE root node: the file [name] with exactly the byte array; size field = its length; the chain has
+   ceil(length / cluster size) clusters; free clusters = all minus those; the label of the request; and NO well-formedness
+   issue of Spec/Wf.v, for any case folding: chain length matches the size, no lost cluster, no cross-link, no duplicate
+   name, no orphan slot. *)
+Theorem C04_session_format_decodes : forall fold upper oem acc o ts im0 bs t im fi name now ops range im1,
+  builder_range o -> ts < 4294967296 -> FatProofs.bytes_ok im0 ->
+  format_boot_sector_validated o ts = Ok (bs, t) -> t <> Format.Fat32 ->
+  (o_max_root_dir_entries o * 32) mod o_bytes_per_sector o = 0 ->
+  format_image o ts im0 = Ok im ->
+  let g := geom_of (fbs_bpb bs) in
+  fi_inv fstore (VolFileProofs.val_ft (ft_of g)) (store_of g im) fi (g_clusters g) ->
+  TimeProofs.datetime_valid now = true -> Forall op_ok (map fst ops) -> clocks_ok ops ->
+  vol_create_empty_file_root upper oem im name now = (Ok (Some range), im1) ->
+  exists st rs content pos e l,
+    vol_session upper oem acc im fi name now ops = Some (st, rs) /\
+    bf_run ([], 0) (map fst ops) rs = Some (content, pos) /\
+    v_root (abs (s_im st)) = [NFile e (if e_cluster e =? 0 then None else Some l) content] /\
+    e_lfn e = stored_lfn name /\ e_lfn_ok e = true /\ e_attr e = 0 /\
+    ShortName.sfn_legal_b (e_sfn e) = true /\
+    e_size e = len_N content /\ (e_cluster e = 0 <-> content = []) /\
+    (e_cluster e <> 0 -> chain_from g (s_im st) (e_cluster e) (Abs.chain_fuel g) = Some l) /\
+    N.of_nat (length l) = cdiv (g_cluster_size g) (len_N content) /\
+    v_root_issues (abs (s_im st)) = [] /\ v_labels (abs (s_im st)) = expected_labels o /\
+    parse_geom (s_im st) = g /\
+    count_free g (s_im st) = sp_clusters (fbs_bpb bs) - cdiv (g_cluster_size g) (len_N content) /\
+    Wf.wf_issues fold (s_im st) = [].
+Proof. exact format_session_decodes. Qed.
+
+(* non-vacuity and the concrete picture: the 64-sector FAT12 image of Props/C06.v (ex_img_fat12 = ex_vol_im); "a.txt" ;
+   509 + 3 + 3 bytes so that [1..6] straddle clusters 2 and 3, under an advancing clock ; flush *)
+Example C04_session_example_hyps :
+  let g := parse_geom ex_vol_im in
+  fixed_root_geom g /\ FatProofs.bytes_ok ex_vol_im /\
+  fi_inv fstore (VolFileProofs.val_ft (ft_of g)) (store_of g ex_vol_im) ex_sfi (g_clusters g) /\
+  v_root_issues (abs ex_vol_im) = [] /\ forallb node_intact (v_root (abs ex_vol_im)) = true /\
+  TimeProofs.datetime_valid ex_vol_now = true /\ Forall op_ok (map fst ex_sops) /\ clocks_ok ex_sops /\
+  fst (vol_create_empty_file_root ex_U ex_O ex_vol_im ex_sname ex_vol_now) = Ok (Some (1, 3)).
+Proof. exact ex_session_hyps. Qed.
+
+Example C04_session_example :
+  match vol_session ex_U ex_O false ex_vol_im ex_sfi ex_sname ex_vol_now ex_sops with
+  | Some (st, rs) =>
+    rs = [RCount 509; RCount 3; RCount 3] /\
+    bf_run ([], 0) (map fst ex_sops) rs = Some (repeat 7 509 ++ [1; 2; 3; 4; 5; 6], 515) /\
+    (exists e, v_root (abs (s_im st)) = [NFile e (Some [2; 3]) (repeat 7 509 ++ [1; 2; 3; 4; 5; 6])] /\
+               e_lfn e = ex_sname /\ e_sfn e = [65; 32; 32; 32; 32; 32; 32; 32; 84; 88; 84] /\
+               e_size e = 515 /\ e_cluster e = 2 /\ e_first_slot e = 1 /\ e_sfn_slot e = 2 /\
+               e_mtime e = 20483 /\ e_mdate e = 22625 /\ e_cdate e = 22621) /\
+    v_root_issues (abs (s_im st)) = [] /\ v_labels (abs (s_im st)) = [[65; 66; 67; 68; 69; 70; 71; 72; 73; 74; 75]] /\
+    Wf.wf_issues (fun l => l) (s_im st) = [] /\ count_free (parse_geom ex_vol_im) (s_im st) = 58 /\
+    img_read (s_im st) (1600 + 26) 6 = [2; 0; 3; 2; 0; 0] /\
+    img_read (s_im st) (512 + 3) 3 = [3; 240; 255] /\ img_read (s_im st) (2048 + 509) 6 = [1; 2; 3; 4; 5; 6] /\
+    sess_dirty (s_h st) (s_en st) = false
+  | None => False
+  end.
+Proof. exact ex_session_flush. Qed.
+
+
 Print Assumptions C04_image_write_frame.
 Print Assumptions C04_written_entry_decodes.
 Print Assumptions C04_fat12_values_agree.
@@ -173,3 +323,10 @@ Print Assumptions C04_file_decodes_node.
 Print Assumptions C04_file_decodes_run.
 Print Assumptions C04_file_decodes_replay.
 Print Assumptions C04_file_decodes_extents.
+Print Assumptions C04_session_create_bytes_ok.
+Print Assumptions C04_session_open_is_created.
+Print Assumptions C04_session_flush_shape.
+Print Assumptions C04_session_flush_decodes.
+Print Assumptions C04_session_wf_premises.
+Print Assumptions C04_session_decode_frame.
+Print Assumptions C04_session_format_decodes.
